@@ -269,6 +269,23 @@ def _file_sink(body):
             or pairs.get("encoding") not in ("self.encoding", "encoding"):
         raise Unsupported("self._kwargs no longer forwards mode/buffering/encoding: %r" % (pairs,))
     cls = find_class(tree, "FileSink")
+    # the constructor opens the file at once unless `delay`: its last statement is
+    # `if not delay: …; self._create_file(path)` (or the unconditional tail `…; self._create_file(path)`)
+    ini, _m = canon(cls, init)
+    M = Match()
+    opens = None
+    if ini and isinstance(ini[-1], ast.If) and not ini[-1].orelse and ini[-1].body \
+            and M(ini[-1].body[-1], "self._create_file($path)"):
+        opens = _bool_kernel(ini[-1].test, {"delay": "delay"})
+    elif ini and M(ini[-1], "self._create_file($path)"):
+        opens = "true"
+    if opens is None:
+        raise Unsupported("FileSink.__init__ does not end with [if not delay:] … self._create_file(path)")
+    for st in ini[:-1]:
+        if any(isinstance(n, ast.Call) and _u(n.func) in ("self._create_file", "open") for n in ast.walk(st)):
+            raise Unsupported("FileSink.__init__ opens a file before its last statement: " + _u(st).splitlines()[0])
+    body.append("/-- does `FileSink.__init__` open the file at once?  (`if not delay: … self._create_file(path)`) -/")
+    body.append("def initOpens (delay : Bool) : Bool := %s" % opens)
     cf, _m = canon(cls, find_func(tree, "_create_file", cls="FileSink"))
     M = Match()
     if not (cf and isinstance(cf[0], ast.Assign) and M(cf[0], "self._file = open($path, **self._kwargs)")
@@ -347,6 +364,40 @@ def _file_sink(body):
             closes_first = True
     body.append("/-- `_terminate_file` begins with `if self._file is not None: self._close_file()` -/")
     body.append("def terminateClosesOpenFile : Bool := %s" % ("true" if closes_first else "false"))
+    # the ORDER of the steps of _terminate_file: close / rename aside (rotating) / compression+retention / create (rotating)
+    helpers = {m.name: m for m in cls.body if isinstance(m, ast.FunctionDef)}
+
+    def calls(node, name):
+        """does `node` call `name` - directly or through one private helper of the class?"""
+        for n in ast.walk(node):
+            if isinstance(n, ast.Call):
+                f = _u(n.func)
+                if f == name:
+                    return True
+                if f.startswith("self.") and f[5:] in helpers and f[5:] not in ("_terminate_file",) \
+                        and any(isinstance(y, ast.Call) and _u(y.func) == name for y in ast.walk(helpers[f[5:]])):
+                    return True
+        return False
+
+    tops = []
+    for st in sts:
+        if _single_call_if(M, st, "self._file is not None", "self._close_file()"):
+            tops.append(".closeIfOpen")
+        elif isinstance(st, ast.If) and _u(st.test) == "is_rotating" and not st.orelse and calls(st, "self._create_file"):
+            if calls(st, "os.rename"):
+                raise Unsupported("_terminate_file: rename and create in one block")
+            tops.append(".createIfRotating")
+        elif isinstance(st, ast.If) and _u(st.test) == "is_rotating" and not st.orelse and calls(st, "os.rename"):
+            tops.append(".renameIfRotating")
+        elif isinstance(st, ast.If) and (calls(st, "self._compression_function") or calls(st, "self._retention_function")):
+            tops.append(".endOfLife")
+        elif isinstance(st, ast.Assign) and not calls(st, "os.rename") and not calls(st, "self._create_file") \
+                and not calls(st, "self._close_file") and not calls(st, "open"):
+            pass            # old_path = self._file_path and the like
+        else:
+            raise Unsupported("_terminate_file: unexpected statement: " + _u(st).splitlines()[0])
+    body.append("/-- the steps of `_terminate_file`, in source order -/")
+    body.append("def terminateOps : List TermOp := [%s]" % ", ".join(tops))
     eol = None
     for st in sts:
         if isinstance(st, ast.If) and any(isinstance(y, ast.Expr) and M(y, "self._compression_function($old)")
@@ -407,6 +458,27 @@ def _stream_sink(body):
         raise Unsupported("StreamSink: no attribute decides whether the stream is flushed")
     fl = attrs[guard]
 
+    # StreamSink.stop
+    sp, _m = canon(cls, find_func(tree, "stop", cls="StreamSink"))
+    sops = []
+    sguard = None
+    for st in sp:
+        if isinstance(st, ast.If) and not st.orelse and len(st.body) == 1 and _u(st.body[0]) == S + ".stop()" \
+                and isinstance(st.test, ast.Attribute) and _u(st.test.value) == "self" and st.test.attr in attrs \
+                and sguard in (None, st.test.attr):
+            sguard = st.test.attr
+            sops.append(".stopIfStoppable")
+        elif _u(st) == S + ".stop()":
+            sops.append(".stop")
+        else:
+            raise Unsupported("StreamSink.stop: unexpected statement: " + _u(st).splitlines()[0])
+    if sguard is None:
+        sguard = "_stoppable" if "_stoppable" in attrs else None
+    if sguard is None:
+        raise Unsupported("StreamSink: no attribute decides whether the stream is stopped")
+    if sguard == guard:
+        raise Unsupported("StreamSink: one attribute decides both flush and stop")
+
     depth = [0]
 
     def kern(node):
@@ -422,6 +494,10 @@ def _stream_sink(body):
             "p0.line_buffering": "lineBuffering",
             "getattr(p0, 'write_through', False)": "writeThrough",
             "p0.write_through": "writeThrough",
+            "callable(getattr(p0, 'stop', None))": "hasStop",
+            "hasattr(p0, 'stop')": "hasStop",
+            "callable(inspect.getattr_static(p0, 'stop', None))": "hasStaticStop",
+            "callable(getattr_static(p0, 'stop', None))": "hasStaticStop",
         }
         if src in atoms:
             return atoms[src]
@@ -439,6 +515,13 @@ def _stream_sink(body):
                     depth[0] -= 1
         if isinstance(node, ast.Constant) and isinstance(node.value, bool):
             return "true" if node.value else "false"
+        if isinstance(node, ast.Compare) and len(node.ops) == 1 and isinstance(node.comparators[0], ast.Constant) \
+                and isinstance(node.comparators[0].value, bool) and isinstance(node.ops[0], (ast.Is, ast.IsNot, ast.Eq, ast.NotEq)) \
+                and _u(node.left).replace('"', "'") in atoms:
+            # `<atom> is True`, `<atom> is not True`, … (the atoms are Bool-valued for every object of the grid)
+            a = atoms[_u(node.left).replace('"', "'")]
+            same = isinstance(node.ops[0], (ast.Is, ast.Eq)) == node.comparators[0].value
+            return a if same else "(!" + a + ")"
         if isinstance(node, ast.BoolOp):
             sym = " && " if isinstance(node.op, ast.And) else " || "
             return "(" + sym.join(kern(v) for v in node.values) + ")"
@@ -451,6 +534,12 @@ def _stream_sink(body):
     body.append("def flushableOf (hasFlush hasStaticFlush lineBuffering writeThrough : Bool) : Bool := %s" % kern(fl))
     body.append("/-- the statements of `StreamSink.write` -/")
     body.append("def streamWriteOps : List StreamOp := [%s]" % ", ".join(ops))
+    body.append("/-- `self.%s = %s` (p0 = the stream) as a function of what the stream exposes -/"
+                % (sguard, _u(attrs[sguard]).replace("-/", "- /")))
+    body.append("def stoppableOf (hasStop hasStaticStop hasFlush hasStaticFlush lineBuffering writeThrough : Bool) : Bool := %s"
+                % kern(attrs[sguard]))
+    body.append("/-- the statements of `StreamSink.stop` -/")
+    body.append("def streamStopOps : List StreamStopOp := [%s]" % ", ".join(sops))
 
 
 def _handler(body):
@@ -494,6 +583,47 @@ def _handler(body):
     body.append("/-- the statements of `Handler.stop` inside its lock; `true` = only under `if self._enqueue:` -/")
     body.append("def handlerStopOps : List (Bool × StopOp) := [%s]" % ", ".join(ops))
 
+    # the tail of Handler.emit: what happens to the formatted message under the handler's lock
+    em, _m = canon(cls, find_func(tree, "emit", cls="Handler"))
+    withs = [n for n in ast.walk(ast.Module(body=em, type_ignores=[])) if isinstance(n, ast.With)
+             and len(n.items) == 1 and _u(n.items[0].context_expr) == "self._protected_lock()"]
+    if len(withs) != 1:
+        raise Unsupported("Handler.emit: expected exactly one `with self._protected_lock():` block")
+    M = Match()
+
+    def acts(stmts):
+        out = []
+        for x in stmts:
+            if M(x, "self._queue.put($m)"):
+                out.append(".queuePut")
+            elif M(x, "self._sink.write($m)"):
+                out.append(".sinkWrite")
+            else:
+                raise Unsupported("Handler.emit: unexpected statement under the lock: " + _u(x).splitlines()[0])
+        return "[%s]" % ", ".join(out)
+
+    eops = []
+    for st in withs[0].body:
+        if isinstance(st, ast.If) and _u(st.test) == "self._stopped" and not st.orelse and len(st.body) == 1 \
+                and isinstance(st.body[0], ast.Return) and st.body[0].value is None:
+            eops.append(".returnIfStopped")
+        elif isinstance(st, ast.If) and _u(st.test) == "self._enqueue":
+            eops.append(".ifEnqueue %s %s" % (acts(st.body), acts(st.orelse)))
+        elif isinstance(st, ast.If) and _u(st.test) == "not self._enqueue":
+            eops.append(".ifEnqueue %s %s" % (acts(st.orelse), acts(st.body)))
+        elif isinstance(st, ast.Expr):
+            a = acts([st])
+            eops.append(".act " + a[1:-1])
+        else:
+            raise Unsupported("Handler.emit: unexpected statement under the lock: " + _u(st).splitlines()[0])
+    # nothing else in emit may hand the message over
+    for n in ast.walk(ast.Module(body=em, type_ignores=[])):
+        if isinstance(n, ast.Call) and _u(n.func) in ("self._queue.put", "self._sink.write") \
+                and not any(n is y for y in ast.walk(withs[0])):
+            raise Unsupported("Handler.emit: the message is handed over outside the lock: " + _u(n))
+    body.append("/-- the statements of `Handler.emit` under `with self._protected_lock():` -/")
+    body.append("def emitOps : List EmitOp := [%s]" % ", ".join(eops))
+
     # the worker loop of an enqueued handler: which queue items end it, which are written
     qw, _m = canon(cls, find_func(tree, "_queued_writer", cls="Handler"))
     loop = [st for st in qw if isinstance(st, ast.While)]
@@ -506,8 +636,12 @@ def _handler(body):
     M = Match()
     for st in loop[0].body:
         if isinstance(st, ast.Try) and len(st.body) == 1 and M(st.body[0], "$item = self._queue.get()") \
-                and len(st.handlers) == 1 and isinstance(st.handlers[0].body[-1], ast.Continue):
-            wops.append(".get")
+                and st.handlers and not st.orelse and not st.finalbody:
+            # every error of get() (it also un-pickles the item) must be caught and the loop must go on:
+            # all handlers end with `continue`, and one of them catches Exception (or everything)
+            goes_on = all(isinstance(h.body[-1], ast.Continue) for h in st.handlers)
+            catches_all = any(h.type is None or _u(h.type) in ("Exception", "BaseException") for h in st.handlers)
+            wops.append(".get" if (goes_on and catches_all) else ".getBreakOnError")
         elif M(st, "$item = self._queue.get()"):
             wops.append(".get")
         elif isinstance(st, ast.If) and not st.orelse and len(st.body) == 1 and isinstance(st.body[0], ast.Break):
